@@ -73,7 +73,7 @@ package valid
 //@   pure
 //@   ensures [C14 parse.key] key == pKey(validName)
 //@   ensures [C14 parse.val] value == pVal(validName)
-//@   ensures [C15 parse.msg] cusMsg == ite(pHasMsg(validName), ite(matches(IncludeZhRe, pRawMsg(validName)), ExplainZh, ExplainEn) ++ " " ++ pRawMsg(validName), "")
+//@   ensures [C14 C15 parse.msg] cusMsg == ite(pHasMsg(validName), ite(matches(IncludeZhRe, pRawMsg(validName)), ExplainZh, ExplainEn) ++ " " ++ pRawMsg(validName), "")
 //@   ensures [C15 parse.nomsg] !pHasMsg(validName) ==> cusMsg == ""
 
 //@ func parseTagTo
